@@ -31,3 +31,10 @@ package expect
 //@   loop 2 invariant[C19] onlydown: rangeindex >= 0 ==> need <= nb(rangeindex) && nb(rangeindex) <= need + 1
 //@   loop 2 invariant[C19] noninverted: rangeindex >= 0 && need < nb(rangeindex) ==> !iop.OutputSet[rangeindex].Inverted
 //@   loop 2 invariant[C19] accepted: rangeindex >= 0 && need < nb(rangeindex) ==> len(iop.OutputSet[rangeindex].Bindingss) > 0 && iop.OutputSet[rangeindex].Bindingss[0] != nil
+// Success is declared only at a line boundary: after EVERY output of the set
+// (the forbidden ones included) has been examined for the line that completed
+// the step. chk(j) = 1 records that the scan of the current line reached
+// output j.
+//@   loop 2 ghostfn chk(rangeindex + 1) = 1
+//@   loop 2 invariant[C19] scanned: forall j rawint :: 0 <= j && j <= rangeindex ==> chk(j) == 1
+//@   ensures[C19] wholeset: err == nil ==> forall j rawint :: 0 <= j && j < len(iop.OutputSet) ==> chk(j) == 1
